@@ -13,6 +13,22 @@ pub mod runtime;
 #[cfg(feature = "verif")]
 pub mod verif {
     pub use crate::smallvec::{SmallVec, SmallVecIntoIter};
+
+    use std::{cell::RefCell, collections::BTreeMap};
+
+    thread_local! {
+        static NOTES: RefCell<BTreeMap<&'static str, u64>> = const { RefCell::new(BTreeMap::new()) };
+    }
+
+    /// Count one occurrence of the optimizer decision `what` (observation only).
+    pub fn note(what: &'static str) {
+        NOTES.with(|n| *n.borrow_mut().entry(what).or_insert(0) += 1);
+    }
+
+    /// Return and reset the counters collected by [`note`] on this thread.
+    pub fn take_notes() -> BTreeMap<&'static str, u64> {
+        NOTES.with(|n| std::mem::take(&mut *n.borrow_mut()))
+    }
 }
 
 use std::{fmt::Debug, hash::Hash};
